@@ -59,6 +59,8 @@ func (n Num) MarshalJSON() ([]byte, error) {
 		return json.Marshal(map[string]any{"c": n.C, "s": n.S})
 	case "fin":
 		return json.Marshal(map[string]any{"c": n.C, "s": n.S, "n": n.N, "d": n.D})
+	case "named":
+		return json.Marshal(map[string]any{"c": n.C, "id": n.ID})
 	case "pow2":
 		return json.Marshal(map[string]any{"c": n.C, "s": n.S, "e": n.E})
 	case "other":
